@@ -36,8 +36,12 @@ Definition contains_ch (c : ch) (s : str) : bool := match index_of c s with Some
 Fixpoint count_ch (c : ch) (s : str) : nat :=
   match s with [] => 0 | x :: r => (if N.eqb x c then 1 else 0) + count_ch c r end.
 
-(* strings.ToUpper on ASCII letters (method names) *)
-Definition upper_ch (c : ch) : ch := if N.leb 97 c && N.leb c 122 then (c - 32)%N else c.
+(* strings.ToUpper as far as method names can tell: ASCII letters, and the two non-ASCII letters whose upper case is an
+   ASCII letter (U+017F LATIN SMALL LETTER LONG S -> S, U+0131 LATIN SMALL LETTER DOTLESS I -> I); every other code point
+   maps to a non-ASCII code point or to itself, which no method name contains *)
+Definition upper_ch (c : ch) : ch :=
+  if N.leb 97 c && N.leb c 122 then (c - 32)%N
+  else if N.eqb c 383 then 83%N else if N.eqb c 305 then 73%N else c.
 Definition to_upper (s : str) : str := map upper_ch s.
 Definition lower_ch (c : ch) : ch := if N.leb 65 c && N.leb c 90 then (c + 32)%N else c.
 Definition to_lower (s : str) : str := map lower_ch s.
